@@ -81,16 +81,32 @@ fn match_path_segments(segments: &[&str], old_segments: &[PathSegment]) -> Optio
     segments_iter.next().is_none().then_some(optionals)
 }
 
+/// Splits a path into its first non empty segment and what follows it
+/// (which is either empty or starts with a `/`).
+fn split_first_segment(path: &str) -> (&str, &str) {
+    let path = path.trim_start_matches('/');
+    path.split_at(path.find('/').unwrap_or(path.len()))
+}
+
+/// Removes the base path from the start of the path, comparing whole segments.
+/// Returns `None` if the path is not under the base path.
+fn strip_base_path<'a>(path: &'a str, base_path: &str) -> Option<&'a str> {
+    base_path
+        .split('/')
+        .filter(|s| !s.is_empty())
+        .try_fold(path, |path, base_segment| {
+            let (segment, rest) = split_first_segment(path);
+            (segment == base_segment).then_some(rest)
+        })
+}
+
 fn get_locale_from_path<L: Locale>(path: &str, base_path: &str) -> Option<L> {
-    let base_path = base_path.trim_start_matches('/');
-    let stripped_path = path
-        .trim_start_matches('/')
-        .strip_prefix(base_path)?
-        .trim_start_matches('/');
+    let stripped_path = strip_base_path(path, base_path)?;
+    let (first_segment, _) = split_first_segment(stripped_path);
     L::get_all()
         .iter()
         .copied()
-        .find(|l| stripped_path.starts_with(l.as_str()))
+        .find(|l| first_segment == l.as_str())
 }
 
 fn construct_path_segments<'b, 'p: 'b>(
@@ -174,16 +190,13 @@ fn get_new_path<L: Locale>(
         if new_locale != L::default() {
             path_builder.push(new_locale.as_str());
         }
-        if let Some(path_rest) = path_name.strip_prefix(base_path) {
+        if let Some(path_rest) = strip_base_path(path_name, base_path) {
             let path_rest = match locale {
                 None => path_rest,
-                Some(l) => {
-                    if let Some(path_rest) = path_rest.strip_prefix(l.as_str()) {
-                        path_rest
-                    } else {
-                        path_rest // Should happen only if l == L::default()
-                    }
-                }
+                Some(l) => match split_first_segment(path_rest) {
+                    (first_segment, path_rest) if first_segment == l.as_str() => path_rest,
+                    _ => path_rest, // Should happen only if l == L::default()
+                },
             };
 
             let old_locale_segments = segments.get(&locale.unwrap_or_default());
@@ -217,7 +230,10 @@ fn get_new_path<L: Locale>(
     });
     location.hash.with_untracked(|hash| {
         if !hash.is_empty() {
-            new_path.push('#');
+            // in the browser the hash already starts with '#'
+            if !hash.starts_with('#') {
+                new_path.push('#');
+            }
             new_path.push_str(hash);
         }
     });
